@@ -258,10 +258,13 @@ func (self *Fork) vdrKillSome(partial *PartialVdrKillReport, done bool) (*VDRKil
 			}
 			self.deletePartialKill()
 		}
+		// If this was the final pass, the report written above is final
+		// even though nothing was left to remove; say so, so that it is
+		// included in the totals for the pipestance.
 		if partial == nil {
-			return nil, false
+			return nil, done
 		} else {
-			return &partial.VDRKillReport, false
+			return &partial.VDRKillReport, done
 		}
 	}
 	if partial == nil {
